@@ -27,13 +27,45 @@ def values():
             datetime(2024, 6, 1, 12, 0, 0), datetime(2024, 6, 1, 12, 0, 0, tzinfo=timezone.utc), 1717243200, 1717243200.0]
 
 
-def impl(cond, env):
+def impl(cond, env, rel=None):
+    toks = []
+    if rel is not None:
+        from rbacx.core.relctx import REL_CHECKER, REL_LOCAL_CACHE
+        toks = [(REL_CHECKER, REL_CHECKER.set(real.TableRel(rel["table"], rel.get("default"), []))),
+                (REL_LOCAL_CACHE, REL_LOCAL_CACHE.set({}))]
     try:
         return bool(rpolicy.eval_condition(cond, env))
     except rpolicy.ConditionTypeError:
         return "mismatch"
     except Exception as e:  # noqa: BLE001
         return "raised:" + type(e).__name__
+    finally:
+        for var, tok in reversed(toks):
+            var.reset(tok)
+
+
+def rel_tree_cases(run: lib.Run, n: int):
+    """and/or/not trees mixing `rel` leaves (answered by a table) with comparisons that are true, false or ill-typed: left-to-right
+    order with short-circuit is observable exactly when a deciding operand stands before an ill-typed one."""
+    import guardcases as gc
+    r = random.Random(run.seed * 7727 + 44)
+    leaves = [True, False, {"==": [1, 1]}, {"==": [1, 2]}, {"<": ["a", 1]}, {"contains": [None, "x"]}, {">=": [{"attr": "context.missing"}, 1]},
+              {"rel": "viewer"}, {"rel": "owner"}, {"rel": {"relation": "editor", "resource": "doc:7"}}, {"rel": "nobody"}]
+
+    def tree(d):
+        k = r.random()
+        if d <= 0 or k < 0.35:
+            return gen.choice(r, leaves)
+        if k < 0.9:
+            return {gen.choice(r, ["and", "or"]): [tree(d - 1) for _ in range(r.randrange(1, 4))]}
+        return {"not": tree(d - 1)}
+    env = {"subject": {"id": "u1", "roles": [], "attrs": {}}, "action": "read", "resource": {"type": "doc", "id": "1", "attrs": {}}, "context": {}}
+    for k in range(n):
+        cfg = gc.random_cfg(r, rel=True)
+        rel = cfg["rel"]
+        if k % 2:
+            rel = {"table": [["user:u1", "viewer", "doc:1", True], ["user:u1", "owner", "doc:1", False]], "default": gen.choice(r, [False, None])}
+        yield tree(3), env, f"reltree#{k}", rel
 
 
 def cells(quick: bool):
@@ -85,12 +117,17 @@ def random_cases(run: lib.Run, n: int):
 def run_cases(run: lib.Run, audit: dict, scale: int = 1):
     quick = run.tier == "quick"
     batch, cmds = [], []
-    it = itertools.chain(cells(quick), random_cases(run, (3000 if quick else 30000) * scale))
-    for cond, env, label in it:
-        out = impl(cond, env)
+    it = itertools.chain(((c, e, l, None) for c, e, l in cells(quick)),
+                         ((c, e, l, None) for c, e, l in random_cases(run, (3000 if quick else 30000) * scale)),
+                         rel_tree_cases(run, (1500 if quick else 15000) * scale))
+    for cond, env, label, rel in it:
+        out = impl(cond, env, rel)
         batch.append((cond, env, label, out))
-        cmds.append({"cmd": "c04", "cond": proto.enc(cond), "env": proto.enc(env), "consts": {},
-                     "oracle": proto.build_oracle(cond, env)})
+        cmd = {"cmd": "c04", "cond": proto.enc(cond), "env": proto.enc(env), "consts": {},
+               "oracle": proto.build_oracle(cond, env)}
+        if rel is not None:
+            cmd["rel"] = rel
+        cmds.append(cmd)
     answers = proto.run_driver(cmds)
     for (cond, env, label, out), ans in zip(batch, answers):
         run.count(f"{'cell' if '|' in label else 'tree'}:{out if isinstance(out, str) else ('true' if out else 'false')}")
@@ -107,7 +144,8 @@ def run_cases(run: lib.Run, audit: dict, scale: int = 1):
 def check(run: lib.Run, audit: dict) -> int:
     run.rule = ("exhaustive cells: 15 operators × 30 left values × 30 right values (every JSON kind, near-duplicates 1/'1'/1.0/True, "
                 "NaN/Inf/10^400, ISO strings, epochs, naive/aware datetimes) × lax/strict × literal/attribute placement "
-                "(quick: attribute placements subsampled 1/5); random nested trees depth ≤4 over all 19 operators incl. hostile values; "
+                "(quick: attribute placements subsampled 1/5); random nested trees depth ≤4 over all 19 operators incl. hostile values; and/or/not "
+                "trees mixing rel leaves (table-answered checker) with true/false/ill-typed comparisons (evaluation order is observable); "
                 "malformed/multi-key documents. non-trivial = the condition produced a Boolean (not a mismatch)")
     run.exhaustive = True
     run.assumptions = ["attribute-path segments do not name Python attributes of builtin values (getattr fallback; DESIGN §2.1 ii)",
